@@ -197,6 +197,13 @@ theorem cur_spec {c : Ctx} {ch : Nat} (h : c.cur = .ok ch) : c.msg[c.pos]? = som
     · rw [List.getElem?_eq_none hge] at hx; cases hx
   · cases h
 
+theorem hasMore_cur' {c : Ctx} (h : c.hasMore = true) : ∃ ch, c.cur = .ok ch ∧ c.msg[c.pos]? = some ch := by
+  have hlt : c.pos < c.msg.length := by
+    have := (hasMore_iff' c).mp h
+    simp only [Ctx.total] at this; omega
+  refine ⟨c.msg[c.pos], ?_, List.getElem?_eq_getElem hlt⟩
+  simp [Ctx.cur, List.getElem?_eq_getElem hlt]
+
 theorem drop_eq_cons_of_getElem? {l : List Nat} {i x : Nat} (h : l[i]? = some x) :
     l.drop i = x :: l.drop (i + 1) := by
   have hlt : i < l.length := by
